@@ -39,7 +39,8 @@ def file_family(tier):
              dict(kind='int', widths=[32], byteord='1,2', rk=['smaller']),
              dict(kind='float', datatype='F', D=2, byteord='4,3,2,1'),
              dict(kind='float', datatype='D', D=1, byteord='1,2,3,4'),
-             dict(kind='int', widths=[8, 8], byteord='2,1', rk=['full', 'full'])]
+             dict(kind='int', widths=[8, 8], byteord='2,1', rk=['full', 'full']),
+             dict(kind='int', widths=[16, 32, 8], byteord='1,2,3,4', rk=['full', 'full', 'full'], n=4, analysis='header')]   # 7-byte rows, bytes after DATA
     k = 1
     if tier == 'thorough':
         bases += [dict(kind='int', widths=[64, 40, 16], byteord='1,2,3,4', rk=['full', 'npot', 'smaller']),
@@ -54,6 +55,11 @@ def file_family(tier):
             c = dict(base)
             c.update(dv)
             yield c
+    # seven-byte rows with bytes after DATA (a wrong event count may happen to match a wrong unit of the size check)
+    for n in (4, 2, 5):
+        for ver, an in (('FCS3.0', 'header'), ('FCS2.0', 'header'), ('FCS3.1', 'text')):
+            yield dict(kind='int', widths=[16, 32, 8], byteord='1,2,3,4', rk=['full', 'full', 'full'], n=n, analysis=an, version=ver, _dev=0)
+    yield dict(kind='int', widths=[24, 24, 24], byteord='4,3,2,1', rk=['full', 'npot', 'full'], n=4, analysis='header', stext='after', version='FCS3.0', _dev=0)
     # both trailing segments together, in both orders of offset placement
     for base in bases[:3]:
         for an in ('header', 'text'):
@@ -113,6 +119,19 @@ def _tol_equal(ref_text, got_text, damaged):
     return set(ref_text) == set(got_text) and all(ref_text[k].rstrip(dch) == got_text[k].rstrip(dch) for k in ref_text)
 
 
+def load_file(path):
+    """the same through the lower-level FCSFile object (FCSData adds its own keyword lookups, which may raise where FCSFile does not)"""
+    import FlowCal
+    try:
+        with warnings.catch_warnings(record=True) as w:
+            warnings.simplefilter('always')
+            f = FlowCal.io.FCSFile(path)
+            ev = c01.as_bits(np.asarray(f.data)) if np.asarray(f.data).ndim == 2 else ['ndim']
+            return 'ok', dict(f.text), dict(f.analysis), ev, [str(x.message) for x in w], tuple(np.asarray(f.data).shape)
+    except Exception as e:
+        return ('err', type(e).__name__)
+
+
 def judge(res, what, sig, damaged, intact, one, rewritten=()):
     """damaged: bytes; intact: load() result of the intact file"""
     path = os.path.join(scratch(), 'c16d.fcs')
@@ -120,8 +139,12 @@ def judge(res, what, sig, damaged, intact, one, rewritten=()):
         f.write(damaged)
     out = load(path)
     if out[0] == 'err':
-        res.ok('raises:' + out[1], True)
-        return
+        out = load_file(path)
+        if out[0] == 'err':
+            res.ok('raises:' + out[1], True)
+            return
+        what = what + ' [as FCSFile; FCSData raised]'
+        sig = sig + ':FCSFile'
     _, text, analysis, ev, warns, shape = out
     itext = dict(intact[1])
     ctext = dict(text)
@@ -293,7 +316,8 @@ def run_case(c):
         f.write(buf)
     intact = load(p)
     if intact[0] != 'ok':
-        raise RuntimeError('intact generated file does not load: %r %r' % (lc, intact))
+        res.violation('intact-file-refused:%s' % intact[1], 'the intact generated file (layout %r) is refused with %s, so nothing can be said about its damaged versions' % (lc, intact[1]), dict(c))
+        return res
     rr = fcsgen.refread(buf)
     assert rr['events'] == intact[3] and rr['text'] == intact[1] and rr['analysis'] == intact[2], 'reference reader disagrees on intact file'
     fault = c.get('fault')
@@ -344,6 +368,19 @@ def run_case(c):
             judge(res, 'fields %s and %s both shifted by %d' % (fa, fb, delta), 'pair:%s:%s' % (re.sub(r'\d+', 'n', fa), 'row' if abs(delta) % rowbytes == 0 else 'bytes'),
                   r2[0], intact, one, rewritten=tuple(set(r1[1]) | set(r2[1])))
             res.counters['paired_shifts'] += 1
+    # (b2) every small value of the declared counts ($TOT up to four times the true count + 8, $PAR up to three times + 3)
+    if c.get('sweep') or (fault is not None and fault[0] == 'count'):
+        for field, top in (('$TOT', 4 * len(lay['events']) + 9), ('$PAR', 3 * len(lay['bits']) + 4)):
+            for v in range(0, top):
+                op = 'set:%d' % v
+                if fault is not None and fault != ['count', field, v]:
+                    continue
+                r = patch_field(buf, info, field, op, lay)
+                if r is None:
+                    continue
+                one = dict(kind='file', layout=lc, fault=['count', field, v])
+                judge(res, 'field %s set to %d' % (field, v), 'count:%s' % field, r[0], intact, one, rewritten=r[1])
+                res.counters['count_values_swept'] += 1
     # (c) every value of every offset field
     if c.get('sweep') or (fault is not None and fault[0] == 'set'):
         for field in offset_fields:
